@@ -27,6 +27,7 @@
 
 
 #include <xalanc/XalanDOM/XalanDocumentFragment.hpp>
+#include <xalanc/XalanDOM/XalanNamedNodeMap.hpp>
 
 
 
@@ -908,6 +909,29 @@ StylesheetRoot::internalShouldStripSourceNode(const XalanText&  textNode) const
 
     if (parent->getNodeType() == XalanNode::ELEMENT_NODE)
     {
+        // The text node is preserved if the nearest ancestor with an
+        // xml:space attribute says "preserve", whatever the declarations say.
+        for (const XalanNode* theAncestor = parent;
+                theAncestor != 0 && theAncestor->getNodeType() == XalanNode::ELEMENT_NODE;
+                    theAncestor = theAncestor->getParentNode())
+        {
+            const XalanNamedNodeMap* const  theAttributes =
+                theAncestor->getAttributes();
+
+            const XalanNode* const  theXMLSpace =
+                theAttributes == 0 ? 0 : theAttributes->getNamedItem(Constants::ATTRNAME_XMLSPACE);
+
+            if (theXMLSpace != 0)
+            {
+                if (equals(theXMLSpace->getNodeValue(), Constants::ATTRVAL_PRESERVE) == true)
+                {
+                    return false;
+                }
+
+                break;
+            }
+        }
+
         const XalanElement* const   theElement =
                 static_cast<const XalanElement*>(parent);
 
